@@ -520,7 +520,7 @@ theorem sep_facts {c : Char} (hsep : sepOk [c] = true) : c ≠ ' ' ∧ c.isDigit
   · intro e; subst e; simp at h2
 
 /-- **Floats in F notation, full law, general case** — the decimals-dropping loop included.
-For every finite double below `2^1013` in magnitude and every F-notation float field (any
+For every finite double (the largest one included) and every F-notation float field (any
 width, up to 323 declared decimals, any admitted separator) in which the value fits
 (`Spec.C02.fits`: the text the writer settles on, after dropping as many decimals as needed,
 is at most `size` wide): the text is `size` wide, reads back as the double nearest to the
@@ -918,8 +918,8 @@ theorem renderLaw_of_domain_F (f : Field) (v : Val) (h : fieldInDomain f v = tru
       exact law_flt_F_gen f dec fmt c hk hfmt hsep neg m e hwf hdec hfits
 
 /-- **C01 for layouts with F-notation floats: read-back and text stability.** For every layout
-and value list admitted by `Spec.C01.inDomain` whose non-missing floats are finite doubles below
-`2^1013` in F-notation fields of at most 323 decimals: the model's write / read / re-write
+and value list admitted by `Spec.C01.inDomain` whose non-missing floats are finite doubles
+(any of them) in F-notation fields of at most 323 decimals: the model's write / read / re-write
 cycle succeeds, the values read back are the canonical forms, and the re-written text is
 identical to the written one. (The remaining clauses of `Spec.C01.holds` about floats —
 dialect, half-unit accuracy, maximal number of decimals — are evaluated per case.) -/
